@@ -312,4 +312,16 @@ class PythonEvaluator(Evaluator):
         attributes = self.__dict__.copy()
         attributes['_executable_code'] = dict()  # Code fragment cannot be pickled
         attributes['_evaluable_code'] = dict()  # Code fragment cannot be pickled
+
+        # Frozen contexts are identified by the id of their state or transition, and ids are
+        # not preserved by pickle or deepcopy: keep a reference to the objects themselves
+        statechart = getattr(self._interpreter, 'statechart', None)
+        objs = [] if statechart is None else (
+            [statechart.state_for(name) for name in statechart.states] + statechart.transitions)
+        attributes['_memory'] = [
+            (obj, self._memory[id(obj)]) for obj in objs if id(obj) in self._memory]
         return attributes
+
+    def __setstate__(self, state):
+        self.__dict__.update(state)
+        self._memory = {id(obj): frozen for obj, frozen in state['_memory']}
